@@ -621,6 +621,17 @@ def run(only=None):
             s.declared = len(fnames) * len(bad_args)
         s.done()
 
+    if want("kept_results"):
+        s = rep.sub("kept_results", "encode / decode / the stage functions of 24 blocks in a row with every returned object kept by the caller: after the last call "
+                                    "each is still the result of its own call")
+        kb = spaces.small_scope_messages(144, 0, extra=[env.det_bits(f"c10-kept-{i}", 144) for i in range(22)])
+        hist.kept_results(s, "encode", [({"block": hex(int(b, 2))}, (lambda b=b: T.encode(bitarray(b)))) for b in kb], obs=lambda r: r.to01())
+        encs = [T.encode(bitarray(b)).to01() for b in kb]
+        hist.kept_results(s, "decode", [({"block": hex(int(b, 2))}, (lambda e=e: T.decode(bitarray(e)))) for b, e in zip(kb, encs)], obs=lambda r: r.to01())
+        for fn in ("bits_to_dibits", "bits_to_tribits"):
+            hist.kept_results(s, fn, [({"block": hex(int(b, 2))}, (lambda e=e, fn=fn: getattr(T, fn)(bitarray(e)))) for b, e in zip(kb, encs)], obs=lambda r: list(r))
+        s.done()
+
     if want("long_call_history"):
         s = rep.sub("long_call_history",
                     "encode / decode (bits and bytes) of one fixed block called again and again in one process: the result never depends on "
